@@ -172,6 +172,18 @@ class OdxLinkDatabase:
     def __init__(self) -> None:
         self._db: Dict[OdxDocFragment, Dict[str, Any]] = {}
 
+    def __copy__(self) -> "OdxLinkDatabase":
+        """Create a copy of the database which can be updated
+        without affecting the original
+
+        The objects which are referenced by the database are shared
+        between the original and the copy, the per-document fragment
+        dictionaries are not.
+        """
+        result = OdxLinkDatabase()
+        result._db = {doc_frag: dict(frag_db) for doc_frag, frag_db in self._db.items()}
+        return result
+
     @overload
     def resolve(self, ref: OdxLinkRef, expected_type: None = None) -> Any:
         ...
